@@ -171,7 +171,7 @@ def _one(rng, small=False):
 
 def cases(rng, tier, n=None):
     if n is None:
-        n = 5000 if tier == 'quick' else 60000
+        n = 5000 if tier == 'quick' else 150000
     out = [_one(rng, small=(i % 3 == 0)) for i in range(n)]
     if tier == 'thorough':
         # all cut vectors of length <= 3 over the event-time set for sequences of <= 4 notes
@@ -284,7 +284,54 @@ def _call(case, ns):
     raise ValueError(op)
 
 
+STATS = {'cases': 0, 'exceptions': {}, 'cut_on_event_time': 0, 'cases_with_cuts': 0, 'pieces': 0,
+         'carried_state_events': 0, 'clipped_notes': 0, 'empty_interval_pieces': 0, 'max_pieces': 0}
+
+
+def _stats(case, out):
+    op, a = case['op'], case['input']
+    STATS['cases'] += 1
+    if out[0] == 'EXC':
+        STATS['exceptions'][out[1]] = STATS['exceptions'].get(out[1], 0) + 1
+        return
+    if op == 'trim':
+        return
+    pieces = [out[1]] if op == 'extract1' else out[1]
+    d = a['seq']
+    evt = set(_times_of(d))
+    starts = [p[8][0] for p in pieces]
+    STATS['cases_with_cuts'] += 1
+    cuts = a['ts'] if op == 'extract' else ([a['a'], a['b']] if op == 'extract1' else starts[1:])
+    if any(c in evt for c in cuts if c != 0):
+        STATS['cut_on_event_time'] += 1
+    STATS['pieces'] += len(pieces)
+    STATS['max_pieces'] = max(STATS['max_pieces'], len(pieces))
+    STATS['empty_interval_pieces'] += sum(1 for x, y in zip(starts[:-1], starts[1:]) if x == y)
+    for k, p in enumerate(pieces):
+        if p[8][0] > 0:
+            STATS['carried_state_events'] += sum(1 for lst in (p[1], p[2], p[3], p[4]) for e in lst if e[0] == 0)
+            STATS['carried_state_events'] += sum(1 for _, lst in p[6] for e in lst if e[0] == 0)
+    for n in d['notes']:
+        if any(n[2] < c < n[3] for c in cuts):
+            STATS['clipped_notes'] += 1
+
+
+def extra_evidence():
+    st = dict(STATS)
+    st['coincidence_rate'] = round(STATS['cut_on_event_time'] / max(1, STATS['cases_with_cuts']), 3)
+    return {'input_distribution': st}
+
+
 def impl(case):
+    out = _impl(case)
+    try:
+        _stats(case, out)
+    except Exception:  # statistics never influence the verdict
+        pass
+    return out
+
+
+def _impl(case):
     op, a = case['op'], case['input']
     ns = nsio.to_proto(a['seq'])
     before = ns.SerializeToString(deterministic=True)
